@@ -316,8 +316,32 @@ func explore(t *testing.T, h *Harness, job *Job) *Summary {
 	if stride == 0 {
 		stride = 1
 	}
+	only := -1
+	if v := os.Getenv("VERIF_ONLY_RUN"); v != "" {
+		// debugging aid: execute one run index several times and print what differs
+		fmt.Sscan(v, &only)
+	}
 	for i := job.First; job.Count == 0 || i < job.Count; i += stride {
 		if job.WallS > 0 && time.Since(start) > time.Duration(job.WallS)*time.Second {
+			break
+		}
+		if only >= 0 {
+			if i != only {
+				continue
+			}
+			var scn0 any
+			if job.Mode == "enumerate" {
+				scn0 = h.Enumerate(job.Property, job.Tier, i)
+			} else {
+				scn0 = h.Gen(rand.New(rand.NewPCG(mix(job.Seed, i), 0x5ce)), job.Property, job.Tier, i)
+			}
+			jb, _ := json.Marshal(scn0)
+			fmt.Fprintf(os.Stderr, "VERIF_ONLY_RUN %d scenario %s\n", i, jb)
+			for k := 0; k < 8; k++ {
+				res := Execute(t, h, job.Property, job.Tier, clone(h, scn0), mix(job.Seed, i), nil, true)
+				fmt.Fprintf(os.Stderr, "VERIF_ONLY_RUN %d attempt %d sig %x tape %d steps %d\n", i, k, res.Sig, len(res.Tape), res.Steps)
+				os.WriteFile(fmt.Sprintf("/tmp/verif-only-%d-%d.trace", i, k), []byte(strings.Join(res.Trace, "\n")), 0o644)
+			}
 			break
 		}
 		runSeed := mix(job.Seed, i)
